@@ -11,6 +11,7 @@ import (
 	"github.com/prometheus/client_golang/prometheus"
 	dto "github.com/prometheus/client_model/go"
 
+	dcp "github.com/Trendyol/go-dcp"
 	"github.com/Trendyol/go-dcp/config"
 	"github.com/Trendyol/go-dcp/couchbase"
 	"github.com/Trendyol/go-dcp/membership"
@@ -113,6 +114,7 @@ type SOp struct {
 	UUID   uint64
 	Roll   bool
 	High   map[uint16]uint64 `json:",omitempty"`
+	R1, R2 bool              // shutdown: how a store call in flight / the final save ends
 }
 
 func (o SOp) term() gal.Term {
@@ -141,6 +143,8 @@ func (o SOp) term() gal.Term {
 		return "Crash"
 	case "scrape":
 		return gal.App("Scrape", pairsN(o.High))
+	case "shutdown":
+		return gal.App("Shutdown", gal.Bool(o.R1), gal.Bool(o.R2))
 	case "end":
 		c := map[string]string{"clean": "EClean", "transient": "ETransient", "final": "EFinal"}[o.Cause]
 		return gal.App("End", gal.N(uint64(o.Vb)), gal.Term(c), gal.N(o.UUID), gal.Bool(o.Roll))
@@ -218,6 +222,14 @@ func (o SOut) term() gal.Term {
 		return gal.App("Metrics", rows4(o.ObsRows), rows4(o.OffRows), gal.N(o.Total), gal.Z(o.Active), gal.N(o.Rebal))
 	case "nometrics":
 		return "NoMetrics"
+	case "dcpclose":
+		return "DcpClose"
+	case "cliclose":
+		return "CliClose"
+	case "returned":
+		return "Returned"
+	case "died":
+		return "Died"
 	}
 	return "Ignored"
 }
@@ -297,12 +309,21 @@ type SDriver struct {
 	Stream        stream.Stream
 	stopCh        chan struct{}
 	stopSeen      bool
-	saveDone      chan struct{}
-	queuedDone    []chan struct{}        // Save() calls waiting for the save lock
+	saveRet       chan struct{}          // one token per Save() call of the harness that has returned
+	waiting       int                    // Save() calls of the harness waiting for the save lock
 	SerialVersion bool                   // server older than 5.5.0
 	sent          map[uint64]interface{} // Rest id -> the gocbcore event sent
 	Faith         []string               // field-faithfulness complaints (C03 monitor)
 	MaxVb         uint16
+	// around a whole Dcp (sdcp.go)
+	IsDcp     bool
+	Auto      bool
+	Health    bool
+	Dcp       dcp.Dcp
+	startDone chan string
+	Trace     *fakes.Trace
+	Life      *LifeObs
+	opIdx     int
 }
 
 func NewSDriver(c SCfg, initial map[uint16]SDoc) *SDriver {
@@ -320,6 +341,40 @@ func NewSDriver(c SCfg, initial map[uint16]SDoc) *SDriver {
 }
 
 func (d *SDriver) fresh() {
+	d.saveRet, d.waiting = nil, 0
+	cfg := d.buildConfig()
+	d.cfg = cfg
+	d.Client = fakes.NewStreamClient()
+	d.Cons = &fakes.Consumer{}
+	d.Disc = &fakes.Discovery{}
+	d.Hand = fakes.NewHandler()
+	d.stopCh = make(chan struct{}, 1)
+	d.stopSeen = false
+	ver := d.version()
+	var disc stream.VBucketDiscovery = d.Disc
+	if d.RealDisc != nil {
+		disc = d.RealDisc
+	}
+	d.Stream = stream.NewStream(d.Client, d.Store, cfg, ver, &couchbase.BucketInfo{}, disc, d.Cons, d.collections(),
+		d.stopCh, d.Hand, tracing.NewTracerComponent())
+}
+
+func (d *SDriver) collections() map[uint32]string {
+	colls := map[uint32]string{}
+	for k, v := range d.Cfg.Colls {
+		colls[k] = v
+	}
+	return colls
+}
+
+func (d *SDriver) version() *couchbase.Version {
+	if d.SerialVersion {
+		return &couchbase.Version{Major: 5, Minor: 4, Patch: 9, Build: 9}
+	}
+	return &couchbase.Version{Major: 7, Minor: 6, Patch: 3}
+}
+
+func (d *SDriver) buildConfig() *config.Dcp {
 	cfg := &config.Dcp{}
 	cfg.RollbackMitigation.Disabled = true
 	cfg.Checkpoint.Type = "manual"
@@ -338,27 +393,7 @@ func (d *SDriver) fresh() {
 	cfg.Dcp.Group.Name = "g"
 	cfg.Dcp.Group.Membership.Type = membership.StaticMembershipType
 	cfg.Dcp.Group.Membership.RebalanceDelay = time.Millisecond
-	d.cfg = cfg
-	d.Client = fakes.NewStreamClient()
-	d.Cons = &fakes.Consumer{}
-	d.Disc = &fakes.Discovery{}
-	d.Hand = fakes.NewHandler()
-	d.stopCh = make(chan struct{}, 1)
-	d.stopSeen = false
-	colls := map[uint32]string{}
-	for k, v := range d.Cfg.Colls {
-		colls[k] = v
-	}
-	ver := &couchbase.Version{Major: 7, Minor: 6, Patch: 3}
-	if d.SerialVersion {
-		ver = &couchbase.Version{Major: 5, Minor: 4, Patch: 9, Build: 9}
-	}
-	var disc stream.VBucketDiscovery = d.Disc
-	if d.RealDisc != nil {
-		disc = d.RealDisc
-	}
-	d.Stream = stream.NewStream(d.Client, d.Store, cfg, ver, &couchbase.BucketInfo{}, disc, d.Cons, colls,
-		d.stopCh, d.Hand, tracing.NewTracerComponent())
+	return cfg
 }
 
 func offOf(o *models.Offset) *SOffset {
@@ -536,8 +571,14 @@ func (d *SDriver) Exec(op SOp) (outs []SOut) {
 			outs = append(d.collectConsumes(), SOut{Kind: "fail", Note: fmt.Sprint(r)})
 		}
 	}()
+	d.opIdx++
 	switch op.Kind {
+	case "shutdown":
+		outs = d.execShutdown(op, d.opIdx-1)
 	case "open":
+		if d.IsDcp {
+			return d.execStart(op)
+		}
 		d.Disc.Set(op.First, op.Last)
 		d.setServer(op.Sv)
 		d.Stream.Open()
@@ -593,13 +634,11 @@ func (d *SDriver) Exec(op SOp) (outs []SOut) {
 		if d.Store.InFlight() {
 			return []SOut{{Kind: "ignored"}}
 		}
-		done := make(chan struct{})
-		d.saveDone = done
-		go func() { d.Stream.Save(); close(done) }()
+		d.goSave()
 		select {
 		case call := <-d.Store.Entered:
 			outs = []SOut{metaSaveOut(call)}
-		case <-done:
+		case <-d.saveRet:
 			outs = []SOut{{Kind: "nosave"}}
 		case <-time.After(3 * time.Second):
 			outs = []SOut{{Kind: "ignored", Note: "Save neither returned nor reached the store"}}
@@ -608,13 +647,12 @@ func (d *SDriver) Exec(op SOp) (outs []SOut) {
 		if !d.Store.InFlight() {
 			return []SOut{{Kind: "ignored"}}
 		}
-		done := make(chan struct{})
-		go func() { d.Stream.Save(); close(done) }()
+		d.goSave()
 		select {
-		case <-done:
-			outs = []SOut{{Kind: "nosave"}}
+		case <-d.saveRet:
+			outs = []SOut{{Kind: "nosave"}} // it did not wait for the save in flight
 		case <-time.After(40 * time.Millisecond):
-			d.queuedDone = append(d.queuedDone, done) // blocked behind the save lock
+			d.waiting++ // blocked behind the save lock
 		}
 	case "savewrite":
 		if !d.Store.Write(op.Vb) {
@@ -625,30 +663,16 @@ func (d *SDriver) Exec(op SOp) (outs []SOut) {
 			return []SOut{{Kind: "ignored"}}
 		}
 		select {
-		case <-d.saveDone:
+		case <-d.saveRet:
 		case <-time.After(3 * time.Second):
 			outs = []SOut{{Kind: "ignored", Note: "Save did not return"}}
 		}
-		if len(d.queuedDone) > 0 {
-			// the next waiting Save() takes the lock: it reaches the store
-			select {
-			case call := <-d.Store.Entered:
-				outs = append(outs, metaSaveOut(call))
-				d.saveDone = d.queuedDone[0]
-				d.queuedDone = d.queuedDone[1:]
-			case <-time.After(2 * time.Second):
-				outs = append(outs, SOut{Kind: "ignored", Note: "a queued Save neither reached the store"})
-			}
-		}
+		outs = append(outs, d.handOver()...)
 	case "crash":
 		for d.Store.InFlight() {
 			d.Store.Release(false)
-			<-d.saveDone
-			if len(d.queuedDone) > 0 {
-				<-d.Store.Entered
-				d.saveDone = d.queuedDone[0]
-				d.queuedDone = d.queuedDone[1:]
-			}
+			<-d.saveRet
+			d.handOver()
 		}
 		d.fresh()
 	case "scrape":
@@ -832,16 +856,39 @@ func (d *SDriver) scrape(high map[uint16]uint64) SOut {
 func (d *SDriver) drainSaves() {
 	for d.Store.InFlight() {
 		d.Store.Release(false)
-		<-d.saveDone
-		if len(d.queuedDone) > 0 {
-			select {
-			case <-d.Store.Entered:
-			case <-time.After(time.Second):
-			}
-			d.saveDone = d.queuedDone[0]
-			d.queuedDone = d.queuedDone[1:]
+		select {
+		case <-d.saveRet:
+		case <-time.After(time.Second):
+		}
+		d.handOver()
+	}
+}
+
+func (d *SDriver) goSave() {
+	if d.saveRet == nil {
+		d.saveRet = make(chan struct{}, 256)
+	}
+	st, ret := d.Stream, d.saveRet
+	go func() { st.Save(); ret <- struct{}{} }()
+}
+
+// handOver follows the Save() calls that were waiting for the save lock after a store call has returned: one after
+// the other they either return without calling the store or the first that finds work reaches the store.
+func (d *SDriver) handOver() (outs []SOut) {
+	for d.waiting > 0 {
+		select {
+		case call := <-d.Store.Entered:
+			d.waiting--
+			return append(outs, metaSaveOut(call))
+		case <-d.saveRet:
+			d.waiting--
+			outs = append(outs, SOut{Kind: "nosave"})
+		case <-time.After(2 * time.Second):
+			d.waiting = 0
+			return append(outs, SOut{Kind: "ignored", Note: "a waiting Save neither returned nor reached the store"})
 		}
 	}
+	return outs
 }
 
 // Digest projects the real state.
@@ -881,6 +928,9 @@ type SHistory struct {
 	Digest  SDigest
 	Faith   []string
 	Tag     string
+	IsDcp   bool     `json:",omitempty"`
+	Auto    bool     `json:",omitempty"`
+	Life    *LifeObs `json:",omitempty"`
 }
 
 func RunHistory(cfg SCfg, initial map[uint16]SDoc, ops []SOp, serial bool) *SHistory {
